@@ -96,7 +96,7 @@ Definition try_unpack_aac (fx : bool) (pt clock : Z) (l : list upkt) : res (opti
             let* pl := slice_cap s_aac_slice b tail (au_pos a) (au_pos a + au_size a) in
             Ok (Some (mk_uo (up_seq p) rest 1 [mk_av pt ms pl]))
           else
-            aac_frag fx clock pt (au_size a) (up_ts p) (up_seq p) (u32 (lenN rem)) [rem] 0 rest
+            aac_frag fx clock pt (au_size a) (up_ts p) (up_seq p) (u32 (lenN rem)) [rem] 1 rest
       | _ =>
           let* avs := aac_multi fx clock pt (up_ts p) b tail 0 aus in
           Ok (Some (mk_uo (up_seq p) rest 1 avs))
